@@ -3,14 +3,20 @@
    decoded data is well-formed data), EncodeCorrect.v (C03: what CPython reads in the code emitted for
    well-formed data) and DecodeView.v (C02: decoded data is CPython's reading of the original).
    The clause "executing both gives the same results, output, exceptions and traced line events" needs
-   CPython's evaluation semantics, which no model here contains; it is NOT claimed as proved: equal
-   symbolic views is the sufficient condition under CPython's rule that operands are fetched by index and
-   jumps by offset, and the behavioural clause is exercised by the oracle of the check only (generated
-   terminating programs executed before/after with stdout, exception and line trace compared). *)
+   CPython's evaluation semantics, which no model here contains.  What IS proved about execution
+   (Spec/Exec.v, Proofs/ExecLayout.v) is parametric in the interpreter: for EVERY per-instruction
+   semantics that observes the opcode, the resolved operand and the line only (and does not distinguish
+   key-equal constants nor a nested code constant from its normal form), executing the original and
+   executing the re-encoded normal form end in the same state with the same outcome after the same
+   sequence of (opcode, line) events, for every fuel and every initial state
+   (C05_same_execution_for_every_operand_level_interpreter).  That CPython's ceval is such an interpreter
+   (operands fetched by index, jumps by offset, slots renamed consistently) is an assumption, exercised
+   by the oracle of the check: generated terminating programs executed before/after with stdout,
+   exception and line trace compared. *)
 From PCD Require Import Base.PyBase Base.Cfg Model.Data Model.Consts Model.LineTable Model.Blocks
   Model.CodeData Spec.Lnotab Spec.Dis Model.ViewSer Proofs.C02_Statements Proofs.C01_Statements
   Proofs.C03b_Statements Proofs.C03c_Statements Proofs.C06_Statements Proofs.NormalFormWf
-  Proofs.NormalizePreserves.
+  Proofs.NormalizePreserves Spec.Exec Proofs.C05e_Statements Proofs.ExecLayout.
 
 (* For every configuration and every code object satisfying view_wf (and whose opcodes are known):
    (1) the normal form of the decoded data has the same instruction stream as CPython reads in the
@@ -53,3 +59,56 @@ Theorem C05_normal_form_is_well_formed_data : forall c code ks d d',
   data_wf c d' = true.
 Proof. exact C05_normal_form_wf_b. Qed.
 Print Assumptions C05_normal_form_is_well_formed_data.
+
+(* CPython's byte-offset execution of a code object is the index execution of its symbolic view:
+   operand widths, EXTENDED_ARG prefixes and table order are invisible to every interpreter of the
+   class described in Spec/Exec.v.  No premise on the code object. *)
+Theorem C05_execution_is_a_function_of_the_symbolic_view :
+  forall (K S : Type) (sem : Z -> dval K -> option Z -> S -> S * ctl) fuel c code names varnames
+         freevars cellvars (consts : list K) table firstlineno s,
+    run_code sem fuel c code names varnames freevars cellvars consts table firstlineno s
+    = run_index sem fuel
+        (dis_view c code names varnames freevars cellvars consts table firstlineno) 0 s.
+Proof. exact exec_code. Qed.
+Print Assumptions C05_execution_is_a_function_of_the_symbolic_view.
+
+(* the execution clause of C05 for every operand-level interpreter *)
+Theorem C05_same_execution_for_every_operand_level_interpreter :
+  forall (S : Type) (sem : Z -> dval const -> option Z -> S -> S * ctl) c code ks d d' code',
+    (forall op v line s, sem op (map_dval normalize_const v) line s = sem op v line s) ->
+    (forall op v v' line s, val_match key_eqb v v' = true -> sem op v line s = sem op v' line s) ->
+    view_wf c code ks && ops_known c (co_code code) = true -> co_code code <> [] ->
+    zlen (co_freevars code) < 1073741824 -> zlen (co_varnames code) < 1073741824 ->
+    nodup_str (co_freevars code) = true ->
+    (0 <=? cfg_extended_arg c) && (cfg_extended_arg c <? 256) = true ->
+    decode_code c code ks = OK d ->
+    mapM_cd (fun k' => match from_const c k' with OK p => OK (k', p) | Err e => Err e end) (normalize d) = OK d' ->
+    encode_code c d' = OK code' ->
+    zlen (co_code code') < 1073741824 ->
+    exists kst : list pconst,
+      map snd kst = co_consts code' /\
+      forall fuel s,
+        let '(t1, s1, o1) :=
+          run_code sem fuel c (co_code code) (co_names code) (co_varnames code) (co_freevars code)
+                   (co_cellvars code) ks (raw_entries (co_linetable code)) (co_firstlineno code) s in
+        let '(t2, s2, o2) :=
+          run_code (fun op (v : dval pconst) => sem op (map_dval fst v)) fuel c (co_code code')
+                   (co_names code') (co_varnames code') (co_freevars code') (co_cellvars code') kst
+                   (raw_entries (co_linetable code')) (co_firstlineno code') s in
+        s1 = s2 /\ o1 = o2 /\ map ev_key t1 = map ev_key t2.
+Proof. exact C05_exec. Qed.
+Print Assumptions C05_same_execution_for_every_operand_level_interpreter.
+
+(* non-vacuity: the class of interpreters is inhabited by non-trivial members, e.g. a line tracer that
+   takes a jump on every other step and halts on opcode 83 (RETURN_VALUE) *)
+Example C05_interpreter_class_is_inhabited :
+  exists sem : Z -> dval const -> option Z -> (list (option Z) * bool) -> (list (option Z) * bool) * ctl,
+    (forall op v line s, sem op (map_dval normalize_const v) line s = sem op v line s) /\
+    (forall op v v' line s, val_match key_eqb v v' = true -> sem op v line s = sem op v' line s) /\
+    sem 83 DNoArg (Some 3) ([], false) = ([Some 3], true, CHalt) /\
+    sem 113 (DJump 0 false) (Some 4) ([], true) = ([Some 4], false, CTake).
+Proof.
+  exists (fun op _ line s => ((line :: fst s, negb (snd s)),
+                              if op =? 83 then CHalt else if snd s then CTake else CNext)).
+  repeat split.
+Qed.
